@@ -101,7 +101,8 @@ class IsoDepInitiator(object):
                         data = self.clf.exchange(data, wtx_timeout)
                         if len(data) == 0:
                             raise nfc.clf.TransmissionError
-                    if data[0] == 0xA2 | (~self.pni & 1):
+                    if (data[0] == 0xA2 | (~self.pni & 1)
+                            and i <= self.n_retry_nak + 1):
                         log.debug("ISO-DEP retransmit after ack")
                         data = pfb + command[offset:offset+self.miu]
                         continue
